@@ -10,6 +10,7 @@ Consensus is a parameter: `U : Nat → Blk` gives, for every block id, what
 The model is tied to the code by `harness/c01` (and c19, c04) on every run.
 -/
 import Verif.Lemmas.Chain
+import Verif.Lemmas.ChainF
 
 namespace Verif.C01
 open Verif.Chain
@@ -205,5 +206,54 @@ example : PreValidated Uv2 (run Uv2 Mgr.init [[1, 2]]) [3] := by
   cases hb
   exact ⟨by simp [LinkedFrom], by decide⟩
 example : (addValidatedV2 Uv2 (run Uv2 Mgr.init [[1, 2]]) [3] 1).1.best = [3, 2, 1, 0] := by decide
+
+
+/-! ### what the `States` bucket holds (model `Model/ChainF.lean`)
+
+`applyTip` writes a block's complete state only when it validates the block (no supplement
+stored); for a block that already has a supplement it relies on the stored state being complete.
+`AddBlocks` stores header-level states, `AddValidatedV2Blocks` complete ones. -/
+
+/-- **every best-chain block has a complete stored state**, in every state reachable by any
+history of `AddBlocks`, `AddValidatedV2Blocks` and `PruneBlocks` (any block universe, any batches,
+no well-formedness assumption at all); more generally every block stored with a supplement has
+one — the fact `applyTip`'s supplement branch depends on.  The chain part of the state is the
+plain model's (`erased`), so `inv_reachable`, `best_chain_valid`, … speak about the same run. -/
+theorem stored_states_complete (U : Nat → Blk) (ops : List OpF) :
+    (∀ i ∈ (runF U MgrF.init ops).m.best, (runF U MgrF.init ops).full i = true) ∧
+    (∀ i r, (runF U MgrF.init ops).m.recs i = some r → r.supp = true → (runF U MgrF.init ops).full i = true) ∧
+    (runF U MgrF.init ops).m = ops.foldl (eraseOp U) Mgr.init := by
+  have h := runF_inv (U := U) ops FInv.init
+  exact ⟨h.bestFull, h.supp, runF_m U ops MgrF.init⟩
+
+/-- side block first, pre-validated later (the history of a seeded faulty variant): block 3 of a
+fork is relayed and stored with a header-level state, then the whole fork [3, 4] is handed over
+pre-validated and wins; its stored state is complete afterwards -/
+def Uside : Nat → Blk
+  | 1 => ⟨0, 1, 200, 100, true, true, false, true⟩
+  | 2 => ⟨1, 2, 300, 100, true, true, false, true⟩
+  | 3 => ⟨1, 2, 301, 100, true, true, false, true⟩
+  | 4 => ⟨3, 3, 420, 100, true, true, false, true⟩
+  | _ => ⟨0, 0, 100, 100, false, false, false, false⟩
+
+example : (runF Uside MgrF.init [.add [1, 2], .add [3]]).full 3 = false ∧
+    (runF Uside MgrF.init [.add [1, 2], .add [3]]).m.best = [2, 1, 0] := by decide
+example : (runF Uside MgrF.init [.add [1, 2], .add [3], .addV2 [3, 4] 2]).m.best = [4, 3, 1, 0] ∧
+    (runF Uside MgrF.init [.add [1, 2], .add [3], .addV2 [3, 4] 2]).full 3 = true := by decide
+
+/-- the faulty variant ("skip `AddState` when a state is already stored") breaks the invariant on
+that history: the statement above is not vacuous -/
+def addV2LoopSkip (U : Nat → Blk) : List Nat → MgrF → MgrF × Option Err
+  | [], s => (s, none)
+  | b :: bs, s =>
+    if !(U b).v2 then (s, some .notV2)
+    else addV2LoopSkip U bs
+      ⟨{ s.m with states := upd s.m.states b true, recs := upd s.m.recs b (some ⟨true, true⟩) },
+       if s.m.states b then s.full else upd s.full b true⟩
+
+example :
+    let s1 := runF Uside MgrF.init [.add [1, 2], .add [3]]
+    let s2 := (maybeReorgF Uside (addV2LoopSkip Uside [3, 4] s1).1 4).1
+    s2.m.best = [4, 3, 1, 0] ∧ s2.full 3 = false := by decide
 
 end Verif.C01
